@@ -120,10 +120,7 @@ func (r *Runner) xwalk() ev {
 	dir := filepath.Join(r.root, auxDir(r.cfg.Lc))
 	ents, err := os.ReadDir(dir)
 	d["exists"] = err == nil
-	suffix := r.cfg.Ext
-	if suffix == "" {
-		suffix = ".json"
-	}
+	suffix := extOf(r.cfg)
 	if r.cfg.Gz {
 		suffix += ".gz"
 	}
@@ -150,7 +147,8 @@ func (r *Runner) xwalk() ev {
 			}
 			continue
 		}
-		if !strings.HasSuffix(name, suffix) || !e.Type().IsRegular() {
+		// (a name starting with a dot is never an object file: the library's temporary files are named that way)
+		if !strings.HasSuffix(name, suffix) || !e.Type().IsRegular() || strings.HasPrefix(name, ".") {
 			extra = append(extra, name)
 			continue
 		}
